@@ -238,6 +238,15 @@ func leaf(c *config.Config, s CfgSetting, given map[string]bool) (string, bool) 
 			return c.HTTPAddress, true
 		}
 		return "", false
+	case "profile_port":
+		// the default of an omitted profile_host differs between the syntaxes (documented for the flag only):
+		// comparable when the host is given too
+		if given["profile_host"] || given["profile_address"] {
+			return c.ProfileAddress, true
+		}
+		return "", false
+	case "profile_host":
+		return "", false
 	}
 	v := reflect.ValueOf(*c)
 	for _, key := range s.YPath {
@@ -368,6 +377,16 @@ func RunConfig(tab CfgTable, seed int64, stride int) (runs []CfgRun, viols []drv
 							}
 						}
 					}
+				case st.ID == "profile_port" && given["profile_address"]:
+					continue // the address form takes precedence
+				case st.ID == "profile_port":
+					for _, h := range uniq {
+						if h.ID == "profile_host" {
+							want = net.JoinHostPort(h.Value, st.Value)
+						}
+					}
+				case st.ID == "profile_address" && st.Value == "none":
+					want = "" // 'none' disables the profiling listener explicitly (README): no address in effect
 				case st.ID == "host":
 					continue
 				case st.Kind == "seconds":
